@@ -1,4 +1,5 @@
 import logging
+import types
 import numpy as np
 import numba
 
@@ -169,9 +170,27 @@ def parallelize(func):
     def wrapper(*args, **kwargs):
         use_parallel = config.NUM_THREADS > 1
         if use_parallel not in _compiled:
+            # numba's on-disk cache is keyed by the function's qualified name and
+            # signature, not by the `parallel` option: under one name the threaded
+            # flavour and the serial one overwrite / load each other's machine code,
+            # and a forked pool worker (NUM_THREADS reset to 1) then runs OpenMP code
+            # after fork and is terminated.  Give each flavour a name of its own
+            # (both differ from the old shared name, so stale cache entries are
+            # never picked up).
+            suffix = "_threaded" if use_parallel else "_serial"
+            target = types.FunctionType(
+                func.__code__,
+                func.__globals__,
+                func.__name__ + suffix,
+                func.__defaults__,
+                func.__closure__,
+            )
+            target.__qualname__ = func.__qualname__ + suffix
+            target.__module__ = func.__module__
+            target.__doc__ = func.__doc__
             _compiled[use_parallel] = numba.jit(
                 nopython=True, parallel=use_parallel, cache=True
-            )(func)
+            )(target)
         return _compiled[use_parallel](*args, **kwargs)
 
     return wrapper
